@@ -3,7 +3,7 @@ package main
 // Seeded random generator of (consumer, producer) pairs, deeper (depth <= 5) and more varied
 // than the enumerated universe of CompatMC: random bounds, nested containers, objects with up
 // to four properties, scopes with up to three objects and arbitrary (also cyclic) references,
-// one-ofs, nested scopes, properties with defaults (scalar kinds) and disabled properties; the producer is the consumer itself, the consumer with ONE feature
+// one-ofs, nested scopes, ints and floats with units, typed lists and maps, histories, properties with defaults (scalar kinds) and disabled properties; the producer is the consumer itself, the consumer with ONE feature
 // changed at a random position, or an unrelated schema.  Only well-formed schemas are emitted
 // (the same WF as spec/Compat.tla; CompatTrace.tla re-checks it).
 
@@ -64,10 +64,54 @@ func (g *gen) leaf(keyOnly bool) *ast {
 	switch k {
 	case "int", "float", "string":
 		a.Min, a.Max = g.bounds()
+		if k != "string" && g.r.Intn(4) == 0 {
+			a.Units = unitSets[g.r.Intn(len(unitSets))]
+		}
 	case "enum_int", "enum_string":
 		a.Values, a.Named = g.values(), g.r.Intn(2) == 0
 	}
 	return a
+}
+
+var unitSets = []string{"bytes", "time", "custom"}
+var typedItemKinds = map[string]bool{"int": true, "float": true, "string": true, "bool": true}
+
+func typedListOK(a *ast) bool { return a.Items != nil && typedItemKinds[a.Items.Kind] }
+func typedMapOK(a *ast) bool {
+	return a.Keys != nil && a.Vals != nil && (a.Keys.Kind == "int" || a.Keys.Kind == "string") && typedItemKinds[a.Vals.Kind]
+}
+
+func hasUnits(a *ast) bool {
+	if a == nil {
+		return false
+	}
+	switch a.Kind {
+	case "int", "float":
+		return a.units() != "none"
+	case "list":
+		return hasUnits(a.Items)
+	case "map":
+		return hasUnits(a.Keys) || hasUnits(a.Vals)
+	case "object":
+		for _, p := range a.Props {
+			if hasUnits(p.Type) {
+				return true
+			}
+		}
+	case "scope":
+		for _, o := range a.Objects {
+			if hasUnits(o) {
+				return true
+			}
+		}
+	case "oneof":
+		for _, m := range a.Members {
+			if hasUnits(m.Obj) {
+				return true
+			}
+		}
+	}
+	return false
 }
 
 // schema generates a schema of at most the given depth; ids = object IDs references may name
@@ -83,10 +127,16 @@ func (g *gen) schema(depth int, ids []string) *ast {
 	case n < 20:
 		a := &ast{Kind: "list", Items: g.schema(depth-1, ids)}
 		a.Min, a.Max = g.bounds()
+		if typedListOK(a) && g.r.Intn(2) == 0 {
+			a.Impl = "typed"
+		}
 		return a
 	case n < 38:
 		a := &ast{Kind: "map", Keys: g.leaf(true), Vals: g.schema(depth-1, ids)}
 		a.Min, a.Max = g.bounds()
+		if typedMapOK(a) && g.r.Intn(2) == 0 {
+			a.Impl = "typed"
+		}
 		return a
 	case n < 62:
 		o := g.object(depth, ids, objectIDs[g.r.Intn(len(objectIDs))])
@@ -212,8 +262,11 @@ func wf(a *ast, table []*ast) bool {
 		return false
 	}
 	switch a.Kind {
-	case "int", "float", "string":
-		return boundsOK(a)
+	case "int", "float":
+		u := a.units()
+		return boundsOK(a) && (u == "none" || u == "bytes" || u == "time" || u == "custom")
+	case "string":
+		return boundsOK(a) && a.units() == "none"
 	case "bool", "pattern", "any":
 		return true
 	case "enum_int", "enum_string":
@@ -226,9 +279,10 @@ func wf(a *ast, table []*ast) bool {
 		}
 		return len(a.Values) > 0
 	case "list":
-		return boundsOK(a) && wf(a.Items, table)
+		return boundsOK(a) && wf(a.Items, table) && (a.impl() == "plain" || a.impl() == "typed" && typedListOK(a))
 	case "map":
-		return boundsOK(a) && a.Keys != nil && keyKinds[a.Keys.Kind] && wf(a.Keys, table) && wf(a.Vals, table)
+		return boundsOK(a) && a.Keys != nil && keyKinds[a.Keys.Kind] && wf(a.Keys, table) && wf(a.Vals, table) &&
+			(a.impl() == "plain" || a.impl() == "typed" && typedMapOK(a))
 	case "object":
 		seen := map[string]bool{}
 		for _, p := range a.Props {
@@ -385,6 +439,21 @@ func (g *gen) mutate(s site) string {
 	case "int", "float", "string", "list", "map":
 		if (a.Kind == "list" || a.Kind == "map") && g.r.Intn(2) == 0 {
 			return "" // let the walk pick a child instead
+		}
+		if (a.Kind == "int" || a.Kind == "float") && g.r.Intn(5) == 0 {
+			old := a.units()
+			for a.units() == old {
+				a.Units = append([]string{"none"}, unitSets...)[g.r.Intn(4)]
+			}
+			return "units"
+		}
+		if (a.Kind == "list" && typedListOK(a) || a.Kind == "map" && typedMapOK(a)) && g.r.Intn(5) == 0 {
+			if a.impl() == "typed" {
+				a.Impl = "plain"
+			} else {
+				a.Impl = "typed"
+			}
+			return a.Kind + " impl"
 		}
 		// half of the bound mutations aim at a range that cannot overlap the original one
 		if g.r.Intn(2) == 0 {
@@ -635,6 +704,20 @@ func (g *gen) pair(depth int) caseT {
 	}
 	if c.Mode == "direct" && c.B.Kind == "scope" && g.r.Intn(3) == 0 {
 		c.Mode = "rb"
+	}
+	// history: one side parsed unit-suffixed strings before the call
+	c.Hist = "none"
+	if g.r.Intn(2) == 0 {
+		var hs []string
+		if hasUnits(c.A) {
+			hs = append(hs, "a")
+		}
+		if hasUnits(c.B) && c.Mode != "self" {
+			hs = append(hs, "b")
+		}
+		if len(hs) > 0 {
+			c.Hist = hs[g.r.Intn(len(hs))]
+		}
 	}
 	return c
 }
